@@ -105,6 +105,10 @@ GIFT2 == [TwoCountry("GIFT2") EXCEPT !.freeq = {8}, !.external = "last",
 IMPORT == [TwoCountry("IMPORT") EXCEPT !.freeq = {3, 9}, !.external = "first",
             !.suppliers = << [mkt |-> 6, sup |-> 9, rule |-> TRUE], [mkt |-> 6, sup |-> 3, rule |-> FALSE] >>,
             !.exo = << Exo(1, "DEM_GOOD"), Exo(7, "DEM_GOOD") >>]
+\* two-way trade: each business also supplies the other country's goods market (both cross rates A_B and B_A are in use)
+IMPORT2 == [IMPORT EXCEPT !.name = "IMPORT2", !.freeq = {6, 12}, !.free = {3, 6, 9, 12},
+            !.suppliers = << [mkt |-> 6, sup |-> 9, rule |-> TRUE], [mkt |-> 6, sup |-> 3, rule |-> FALSE],
+                             [mkt |-> 12, sup |-> 3, rule |-> TRUE], [mkt |-> 12, sup |-> 9, rule |-> FALSE] >>]
 \* the RESIDUAL supplier of A's goods market is B's business; A's own business supplies a fixed share
 IMPORTRES == [TwoCountry("IMPORTRES") EXCEPT !.freeq = {9}, !.free = {3, 9}, !.external = "last",
             !.suppliers = << [mkt |-> 6, sup |-> 3, rule |-> TRUE], [mkt |-> 6, sup |-> 9, rule |-> FALSE] >>,
@@ -319,6 +323,6 @@ TWOCAPS == [Bp("TWOCAPS", C1,
               Sd("C", "TF", "TaxFlow"), Sd("C", "LAB", "Market"), Sd("C", "GOOD", "Market") >>, {3, 4, 5, 8})
         EXCEPT !.freeq = {4, 5}, !.exo = << Exo(1, "DEM_GOOD") >>, !.wellformed = FALSE]
 
-AllBlueprints == {ROWAID, TAXOWN, GOLDCBIMP, SIMINF, SELFBUY, TAXBUS, TWOCAPS, RINGFAN, SIMPLAIN, SIMBOOK, SIMEX1BOOK, PCBOOK, REGBOOK, REG2BOOK, MULTIX, TRIREG, TWOBUSX, RING3, REG2, GOLDCB, TWOBUS, TWOGIFTS, SIMBOND, IMPORTRES, NOEXT3, SIMX, SIMR, SIMEXR, JOIN2, JOIN2X, GOLD2, GOLDNOEXT, SIM, SIMEX, SIMCAP, SIMMARGIN, SIMMON, SIMDEP, PC, MULTI, FED, GIFT, GIFT2, IMPORT, NOEXT1, NOEXT2, NOSUP, TWOSUP}
+AllBlueprints == {IMPORT2, ROWAID, TAXOWN, GOLDCBIMP, SIMINF, SELFBUY, TAXBUS, TWOCAPS, RINGFAN, SIMPLAIN, SIMBOOK, SIMEX1BOOK, PCBOOK, REGBOOK, REG2BOOK, MULTIX, TRIREG, TWOBUSX, RING3, REG2, GOLDCB, TWOBUS, TWOGIFTS, SIMBOND, IMPORTRES, NOEXT3, SIMX, SIMR, SIMEXR, JOIN2, JOIN2X, GOLD2, GOLDNOEXT, SIM, SIMEX, SIMCAP, SIMMARGIN, SIMMON, SIMDEP, PC, MULTI, FED, GIFT, GIFT2, IMPORT, NOEXT1, NOEXT2, NOSUP, TWOSUP}
 QuickBlueprints == { [b EXCEPT !.free = b.freeq] : b \in AllBlueprints }
 =============================================================================
